@@ -75,7 +75,7 @@ func replayBPF(w *World, ob bpfOb) map[string]interface{} {
 			cfg[k] = v
 		}
 	}
-	prog := strings.TrimSuffix(strings.TrimPrefix(ob.Name, "packets."), "#C12.exact")
+	prog := strings.TrimSuffix(strings.TrimSuffix(strings.TrimPrefix(ob.Name, "packets."), "#C12.exact"), "#C02.captures")
 	var hexs []string
 	for _, b := range frame {
 		hexs = append(hexs, fmt.Sprintf("0x%02x", b))
